@@ -59,3 +59,16 @@ def sites(repo: Repo, rels) -> List[Tuple[FuncInfo, ast.AST, str, list]]:
                             relying.append((caller, c))
                 out.append((fi, st, p, relying))
     return out
+
+
+def falsy_numeric_defaults(fn: ast.AST):
+    """`<lookup> or <non-zero number>`: a stored 0 (a legal value: zero flow, zero charge, zero count) is replaced by the default, because the
+    default is chosen by truthiness instead of by presence.  [(node, text)]"""
+    out = []
+    for x in walk_local(fn, into_nested=True):
+        if isinstance(x, ast.BoolOp) and isinstance(x.op, ast.Or) and len(x.values) == 2:
+            a, c = x.values
+            is_lookup = (isinstance(a, ast.Call) and isinstance(a.func, ast.Attribute) and a.func.attr == "get") or isinstance(a, ast.Subscript)
+            if is_lookup and isinstance(c, ast.Constant) and isinstance(c.value, (int, float)) and not isinstance(c.value, bool) and c.value:
+                out.append((x, f"`{norm(a)}` equal to 0 becomes {c.value!r}"))
+    return out
